@@ -85,7 +85,9 @@ type Proof struct {
 	strSeen     map[int]bool
 	typeInvSeen map[int]bool
 	freshRefs   map[int]bool
+	nonNilElems map[int]bool
 	checkStores bool
+	bvFacts     [][]*Term
 	epochs      int
 	storeCount  int
 	curPos      token.Pos
@@ -111,6 +113,15 @@ func (p *Proof) assume(guard, fact *Term) {
 	if t == tTrue {
 		return
 	}
+	if t.hasBV {
+		// a fact about a term that mentions a quantified variable (created while evaluating the body of a
+		// quantifier in a contract): it cannot be stated outside the quantifier. It is handed to the
+		// enclosing quantifier, which uses it as an antecedent (type invariants hold in every state).
+		if n := len(p.bvFacts); n > 0 {
+			p.bvFacts[n-1] = append(p.bvFacts[n-1], t)
+		}
+		return
+	}
 	p.assumptions = append(p.assumptions, t)
 }
 
@@ -120,8 +131,11 @@ func (p *Proof) oblige(name, kind string, pos token.Pos, guard, goal *Term, desc
 		o.Pos = p.eng.fset.Position(pos)
 	}
 	p.obligations = append(p.obligations, o)
-	// after an obligation, later code may assume it (standard VC practice)
-	p.assume(guard, goal)
+	// after an obligation, later code may assume it (standard VC practice); frame facts are not
+	// re-assumed (quantified, and nothing later depends on them)
+	if kind != "frame" {
+		p.assume(guard, goal)
+	}
 	return o
 }
 
@@ -243,7 +257,11 @@ func untrackedElem(et types.Type) bool {
 
 func (p *Proof) loadElem(st *State, et types.Type, arr, idx *Term) Value {
 	if untrackedElem(et) {
-		return freshValue(et, "anyelem")
+		v := freshValue(et, "anyelem")
+		if iv, ok := v.(IfaceV); ok && p.nonNilElems[arr.id] {
+			p.assume(True(), Neq(iv.Ref, BVInt(0, 64)))
+		}
+		return v
 	}
 	v := build(et, func(l leafSpec) *Term {
 		c := p.heapCell(st, elemsKey(et, l.Path), SArr(SRef, SArr(SBV(64), l.Sort)))
@@ -252,6 +270,9 @@ func (p *Proof) loadElem(st *State, et types.Type, arr, idx *Term) Value {
 	if inv := p.typeInv(st, et, v); inv != tTrue && !p.typeInvSeen[inv.id] {
 		p.typeInvSeen[inv.id] = true
 		p.assume(True(), inv)
+	}
+	if iv, ok := v.(IfaceV); ok && p.nonNilElems[arr.id] {
+		p.assume(True(), Neq(iv.Ref, BVInt(0, 64)))
 	}
 	return v
 }
@@ -606,6 +627,54 @@ type loopInfo struct {
 	entrySt *State
 	allHeap bool
 	havocked *effects
+	auto    *autoRange
+	autoDec *Term
+}
+
+// autoRange: the built-in invariant of a range-over-slice/string loop: -1 <= rangeindex < len(x),
+// where len(x) was evaluated once before the loop (an immutable SSA register).
+type autoRange struct {
+	cell *Cell
+	lenT *Term
+}
+
+func (a *autoRange) inv(ri *Term) *Term {
+	return And(BVSle(BVInt(-1, 64), ri), BVSlt(ri, a.lenT), BVSle(BVInt(0, 64), a.lenT))
+}
+
+func (fr *Frame) autoRange(li *loopInfo) *autoRange {
+	h := li.head
+	if h.Comment != "rangeindex.loop" || len(h.Instrs) < 5 {
+		return nil
+	}
+	ld, ok1 := h.Instrs[0].(*ssa.UnOp)
+	add, ok2 := h.Instrs[1].(*ssa.BinOp)
+	_, ok3 := h.Instrs[2].(*ssa.Store)
+	cmp, ok4 := h.Instrs[3].(*ssa.BinOp)
+	if !ok1 || !ok2 || !ok3 || !ok4 || ld.Op != token.MUL || add.Op != token.ADD || cmp.Op != token.LSS || cmp.X != add {
+		return nil
+	}
+	al, ok := ld.X.(*ssa.Alloc)
+	if !ok || al.Comment != "rangeindex" {
+		return nil
+	}
+	cell := fr.cells[al]
+	if cell == nil {
+		return nil
+	}
+	lv, ok := fr.regs[cmp.Y]
+	if !ok {
+		if c, isC := cmp.Y.(*ssa.Const); isC {
+			lv = fr.p.constValue(c)
+		} else {
+			return nil
+		}
+	}
+	ls, ok := lv.(Scalar)
+	if !ok || ls.T.Sort != SBV(64) {
+		return nil
+	}
+	return &autoRange{cell: cell, lenT: ls.T}
 }
 
 type deferEntry struct {
@@ -1059,6 +1128,11 @@ func (fr *Frame) loopHead(li *loopInfo, st *State) *State {
 		p.oblige(fr.loopName(li, "inv-init", k+1), "inv-init", headPos, st.Guard, g, "loop invariant holds on entry: "+lc.Src)
 	}
 	li.entrySt = st
+	auto := fr.autoRange(li)
+	if auto != nil {
+		ri := st.Locals[auto.cell].(Scalar).T
+		p.oblige(fr.loopName(li, "auto-inv-init", 1), "inv-init", headPos, st.Guard, auto.inv(ri), "range loop index invariant holds on entry")
+	}
 	// havoc
 	eff := fr.loopEffects(li)
 	if os.Getenv("GOVC_DEBUG") != "" {
@@ -1097,6 +1171,13 @@ func (fr *Frame) loopHead(li *loopInfo, st *State) *State {
 			n.Heap[key] = B.Fresh("lpH."+key, srt)
 		}
 	}
+	if eff.allMaps && !eff.allHeap {
+		for key, old := range n.Heap {
+			if strings.HasPrefix(key, "mapdom:") || strings.HasPrefix(key, "mapval:") {
+				n.Heap[key] = B.Fresh("lpH."+key, old.Sort)
+			}
+		}
+	}
 	if eff.allHeap {
 		for key, old := range n.Heap {
 			n.Heap[key] = B.Fresh("lpH."+key, old.Sort)
@@ -1121,13 +1202,18 @@ func (fr *Frame) loopHead(li *loopInfo, st *State) *State {
 	n.Guard = reach
 	p.assume(reach, st.Guard)
 	p.assumeFieldConstraints(reach, st, n)
-	// automatic frame invariant: locations outside the function's modifies clause keep their entry values
+	fr.assumeLoopFrames(li, st, n, eff, reach)
+	// automatic frame invariant: locations outside the function's modifies clause keep their entry values.
+	// Only needed for cells that are still wholesale-havocked (unknown writers).
 	if fr.depth == 0 && p.con != nil && !p.eng.noLoopFrame {
 		for _, fc := range p.frameClauses(st, eff) {
 			p.oblige(fr.loopName(li, "frame-init", fc.ord), "frame", headPos, st.Guard, fc.goal(st), "frame holds on loop entry for "+fc.key)
-			p.assume(reach, fc.goal(n))
+			if cur, ok := n.Heap[fc.key]; ok && len(cur.Args) == 0 && strings.HasPrefix(cur.Op, "lpH.") {
+				p.assume(reach, fc.goal(n))
+			}
 		}
 	}
+
 	for cell := range eff.cells {
 		if v, ok := n.Locals[cell]; ok {
 			p.assume(reach, p.typeInv(n, cell.Typ, v))
@@ -1139,6 +1225,14 @@ func (fr *Frame) loopHead(li *loopInfo, st *State) *State {
 		p.assume(reach, g)
 		facts = append(facts, g)
 	}
+	if auto != nil {
+		if v, ok := n.Locals[auto.cell]; ok {
+			ri := v.(Scalar).T
+			p.assume(reach, auto.inv(ri))
+			li.autoDec = BVSub(auto.lenT, ri)
+		}
+	}
+	li.auto = auto
 	p.propagateEqs(n, facts, nil)
 	li.decHead = nil
 	for _, lc := range decs {
@@ -1168,6 +1262,14 @@ func (fr *Frame) backEdge(li *loopInfo, st *State) {
 	for k, lc := range invs {
 		g := fr.evalBool(lc.Expr, st, lc.Src)
 		p.oblige(fr.loopName(li, "inv-pres", k+1), "inv-pres", pos, st.Guard, g, "loop invariant preserved: "+lc.Src)
+	}
+	if li.auto != nil {
+		if v, ok := st.Locals[li.auto.cell]; ok {
+			ri := v.(Scalar).T
+			p.oblige(fr.loopName(li, "auto-inv-pres", 1), "inv-pres", pos, st.Guard, li.auto.inv(ri), "range loop index invariant preserved")
+			m := BVSub(li.auto.lenT, ri)
+			p.oblige(fr.loopName(li, "auto-dec", 1), "dec", pos, st.Guard, And(BVSle(BVInt(0, 64), li.autoDec), BVSlt(m, li.autoDec)), "range loop terminates: len - index decreases")
+		}
 	}
 	if fr.depth == 0 && p.con != nil && li.havocked != nil && !p.eng.noLoopFrame {
 		for _, fc := range p.frameClauses(st, li.havocked) {
@@ -1754,6 +1856,13 @@ func (fr *Frame) slice(x *ssa.Slice, st *State) Value {
 		hi := get(x.High, n)
 		goal := And(BVSle(z, lo), BVSle(lo, hi), BVSle(hi, n))
 		p.oblige(name, "slice", x.Pos(), st.Guard, goal, "array slice bounds in range")
+		if untrackedElem(at.Elem()) {
+			// varargs of interface values (logging, formatting): contents are not modelled, so the slice does
+			// not need a place in the heap model (keeps the allocation counter identical across branches)
+			ref := B.Fresh("vararg", SRef)
+			p.assume(True(), Neq(ref, BVInt(0, 64)))
+			return SliceV{Ref: ref, Off: lo, Len: BVSub(hi, lo), Cap: BVSub(n, lo), Elem: at.Elem()}
+		}
 		ref := p.allocRef(st)
 		if av.Vals != nil {
 			for i, ev := range av.Vals {
